@@ -115,7 +115,7 @@ def tell(msg: str) -> None:
                 _print("Target altitude", alt, "feet")
                 _print("Altitude source", alt_source)
                 _print("Altitude reference", alt_ref)
-                _print("Angle", angle, "°")
+                _print("Angle", angle, "degrees")
                 _print("Angle Type", angle_type)
                 _print("Angle Source", angle_source)
                 if vertical_mode is not None:
@@ -152,7 +152,7 @@ def tell(msg: str) -> None:
                     baro,
                     "" if baro is None else "millibars",
                 )
-                _print("Selected Heading", hdg, "°")
+                _print("Selected Heading", hdg, "degrees")
                 if not (common.bin2int((common.hex2bin(msg)[32:])[46]) == 0):
                     _print(
                         "Autopilot", types_29[autopilot] if autopilot else None
